@@ -435,6 +435,12 @@ func TestVerifC20(t *testing.T) {
 		cfg.EndstreamBodies = true
 		cfg.Seekable = c.Index%4 == 3
 		cfg.MaxOps = 2 + c.Rng.Intn(4)
+		many := c.Index%4 == 1
+		if many {
+			// dozens of streams with indirect /Length in one file
+			cfg.MaxOps = 30 + c.Rng.Intn(12)
+			cfg.Seekable = false
+		}
 		d, err := gen.BuildDoc(c.Rng, cfg)
 		if err != nil {
 			c.Violationf("writer-refused-valid-call", "%v", err)
@@ -447,6 +453,16 @@ func TestVerifC20(t *testing.T) {
 		step := 1
 		if len(d.Data) > 8000 {
 			step = 7 // every 7th offset plus the object boundaries below
+		}
+		if many {
+			step = len(d.Data) + 1 // the object boundaries only
+			nind := 0
+			for _, t := range truth {
+				if t.lenRef != nil {
+					nind++
+				}
+			}
+			c.Max("streams_with_indirect_length_in_one_file", float64(nind), cfg.String())
 		}
 		for cut := 0; cut <= len(d.Data); cut += step {
 			c20CheckScan(c, d, truth, xf, d.Data[:cut], "truncated", false)
